@@ -43,6 +43,12 @@ def plain(s):
     return all(c in _PLAIN for c in s)
 
 
+def stable_fold(s):
+    """upper() and lower() are inverse on s (false for sharp s, dotless i,
+    ligatures ...): only then "case-insensitive" has one meaning."""
+    return s.upper().lower() == s.lower() and s.lower().upper() == s.upper()
+
+
 def fold(s):
     """Case-insensitive form.  Only used on strings for which upper() and
     lower() folding induce the same equality (asserted by the check's
@@ -62,6 +68,8 @@ def compare(a, b):
         return (fa > fb) - (fa < fb)
     if ra == 2:
         return (int(va) > int(vb)) - (int(va) < int(vb))
+    if not (stable_fold(va) and stable_fold(vb)):
+        return None            # e.g. "straße": no case-insensitive form
     ua, ub = fold(va), fold(vb)
     if ua == ub:
         return 0
@@ -91,6 +99,8 @@ def holds(op, a, b):
         other = b if a[0] == 'blank' else a
         return True if blank_partner(other) else None
     c = compare(a, b)
+    if c is None:
+        return None
     if c == 'ne':
         return {'eq': False, 'ne': True}.get(op)
     return _BY_CMP[op](c)
